@@ -147,6 +147,75 @@ theorem compl_in_width (a : Int) (n : Nat) (ha : 0 ≤ a) (ha' : a < 2^n) :
   rw [h, Int.add_mul_emod_self_left]
   apply Int.emod_eq_of_lt <;> omega
 
+/-! ### single-bit facts -/
+
+/-- `-[m+1] / 2^k = -[(m / 2^k)+1]` (floor division of a negative number by a power of two). -/
+theorem negSucc_div_pow (m k : Nat) :
+    Int.negSucc m / (2:Int)^k = Int.negSucc (m / 2 ^ k) := by
+  rw [← shr_eq_div]
+  show Int.negSucc (m >>> k) = _
+  rw [Nat.shiftRight_eq_div_pow]
+
+/-- the binary digit (floor division) of a negative number is the complement of the digit of `m` -/
+theorem negSucc_digit (m k : Nat) :
+    (Int.negSucc m / (2:Int)^k) % 2 = 1 - ((m / 2 ^ k % 2 : Nat) : Int) := by
+  rw [negSucc_div_pow, Int.negSucc_emod _ (by norm_num : (0:Int) < 2)]
+  push_cast
+  ring
+
+/-- B4c: bit `k` (two's complement, sign-extended) is the `k`-th binary digit w.r.t. floor division,
+for every integer `a`, including negative ones. -/
+theorem testBit_iff_digit (a : Int) (k : Nat) :
+    a.testBit k = true ↔ (a / (2:Int)^k) % 2 = 1 := by
+  cases a with
+  | ofNat m =>
+    show m.testBit k = true ↔ ((m : Int) / (2:Int)^k) % 2 = 1
+    rw [Nat.testBit_eq_decide_div_mod_eq, decide_eq_true_iff]
+    have h : ((m : Int) / (2:Int)^k) % 2 = ((m / 2 ^ k % 2 : Nat) : Int) := by push_cast; rfl
+    rw [h]
+    omega
+  | negSucc m =>
+    show (!m.testBit k) = true ↔ _
+    rw [negSucc_digit, Nat.testBit_eq_decide_div_mod_eq]
+    have h2 : m / 2 ^ k % 2 < 2 := Nat.mod_lt _ (by norm_num)
+    by_cases h : m / 2 ^ k % 2 = 1
+    · simp [h]
+    · have h0 : m / 2 ^ k % 2 = 0 := by omega
+      simp [h0]
+
+theorem nat_ldiff_pow (m k : Nat) :
+    Nat.ldiff (2 ^ k) m = (!m.testBit k).toNat * 2 ^ k := by
+  apply Nat.eq_of_testBit_eq
+  intro i
+  rw [Nat.testBit_ldiff, Nat.testBit_two_pow]
+  by_cases hki : k = i
+  · subst hki
+    cases h : m.testBit k <;> simp
+  · cases h : m.testBit k <;> simp [hki]
+
+/-- B1b: AND with a single bit `2^k` extracts the `k`-th binary digit (floor division). -/
+theorem and_pow (x : Int) (k : Nat) :
+    x &&& (2:Int)^k = (2:Int)^k * ((x / (2:Int)^k) % 2) := by
+  have hc : (2:Int)^k = ((2 ^ k : Nat) : Int) := by push_cast; rfl
+  rw [and_eq_land]
+  cases x with
+  | ofNat m =>
+    have : Int.land (Int.ofNat m) ((2:Int)^k) = ((m &&& 2 ^ k : Nat) : Int) := by rw [hc]; rfl
+    rw [this, Nat.and_two_pow, Nat.toNat_testBit]
+    show _ = (2:Int)^k * (((m : Int) / (2:Int)^k) % 2)
+    push_cast
+    ring
+  | negSucc m =>
+    have : Int.land (Int.negSucc m) ((2:Int)^k) = ((Nat.ldiff (2 ^ k) m : Nat) : Int) := by
+      rw [hc]; rfl
+    rw [this, nat_ldiff_pow, negSucc_digit]
+    have h2 : m / 2 ^ k % 2 < 2 := Nat.mod_lt _ (by norm_num)
+    rw [Nat.testBit_eq_decide_div_mod_eq]
+    by_cases h : m / 2 ^ k % 2 = 1
+    · simp [h]
+    · have h0 : m / 2 ^ k % 2 = 0 := by omega
+      simp [h0]
+
 -- (`Nat.ldiff` is defined by well-founded recursion, so these two go through the theorems above)
 example : (-5 : Int) &&& 7 = 3 := by                 -- Python: -5 & 7 == 3
   have h := and_mask (-5) 3
@@ -168,3 +237,5 @@ end BitLemmas
 #print axioms BitLemmas.xor_range
 #print axioms BitLemmas.compl_eq
 #print axioms BitLemmas.compl_in_width
+#print axioms BitLemmas.and_pow
+#print axioms BitLemmas.testBit_iff_digit
